@@ -26,6 +26,8 @@ WOf(n) == IF n >= 0 THEN <<BIAS, n \div L22, n % L22>>
                IN <<BIAS - borrow2, b, c>>
 
 \* n * 2^k for the few big constants the models use
+\* n * 2^22 + m for 0 <= n < 2^31, 0 <= m < 2^22 (values up to 2^53)
+WBig(n, m) == <<BIAS + n \div L22, n % L22, m>>
 W2p31 == <<BIAS, 512, 0>>        \* 2^31
 W2p40 == <<BIAS, 262144, 0>>     \* 2^40
 W2p62 == <<BIAS + 262144, 0, 0>> \* 2^62
